@@ -7,6 +7,11 @@
 (* the parsed tree, the tree after dump + parse, the verdict of every        *)
 (* formula, the deviations that fire and the contexts that tell the two      *)
 (* documents apart.                                                          *)
+(* Source files (AyDump, "SOURCE FILES"): SameValue / DumpStable also range  *)
+(* over FilePairs - the document read from a named file, its dump re-read as *)
+(* a string, from another directory, under the same name; Emit prints the    *)
+(* source file and reference directory of every `!path` node per way (pf).   *)
+(* Mutations ReparseOverridesSourceFile / DumpOmitsSourceFile are refuted.   *)
 (***************************************************************************)
 EXTENDS AyDump, Uni
 
